@@ -409,10 +409,10 @@ def check(ctx):
             ctx.violation("rewriting changes the outcome", v["input"], "same", "different")
         ctx.cov["evaluations"] = 1
         return core.finish(ctx)
-    n = 1500 if ctx.thorough else 300
+    n = 4500 if ctx.thorough else 300
     ps = progs.gen_programs(ctx, n)
     # the evaluator tie (C05_alpha_evaluation is a theorem about Model/Eval.v)
-    evaltie.run(ctx, ps[: (600 if ctx.thorough else 120)] + evaltie.repo_corpus())
+    evaltie.run(ctx, ps[: (1800 if ctx.thorough else 120)] + evaltie.repo_corpus())
     base = progs.compile_many(ps)
     jobs = []
     for p, r in zip(ps, base):
